@@ -1,6 +1,7 @@
 import Tup.Lemmas.Config
 import Tup.Lemmas.ConfigLayers
 import Tup.Lemmas.ConfigToml
+import Tup.Lemmas.ConfigText
 /-!
   C17 — configuration layers resolve by fixed precedence and round-trip through TOML.
 
@@ -211,8 +212,8 @@ theorem wrong_type_rejected (sd : String) (o : Opt) (v : Val) :
 /-- FULL STATEMENT (not proved in this generality): for every option `o` of the table and every value
     `nv` that `validate_and_normalize` can return for it, there is a string `s` with
     `normalizeOpt sd o (.str s) = .ok nv` — hence every layer, the environment included, can express
-    every accepted value.  Missing: floats (no decimal printer for rationals on the Lean side),
-    negative integers, free-form strings that look like numbers, lists.
+    every accepted value.  Missing in THIS theorem: floats, negative integers, free-form
+    strings, lists — see `same_text_every_layer_partial_int` and `same_text_every_layer_partial_more` below.
     PROVED: the textual forms of subspaces, spaces, media and sizes are accepted for their options,
     `true`/`false` for every `bool` option and every decimal natural number for every option whose
     type is `int`, `int | 'auto'` — the classes the environment layer could not set before D11. -/
@@ -280,6 +281,87 @@ theorem same_text_every_layer_partial_int (sd : String) :
       o.name ≠ "cell_size" ∧ o.name ≠ "default_cell_size" ∧ o.name ≠ "id_database_dir" ∧
       o.name ≠ "upload_method" ∧ o.name ≠ "supported_formats" := by decide
   exact normalizeOpt_int_text sd hty (hn o ho hty) i
+
+/-- `same_text_every_layer_partial` for the remaining value classes.  **Floats**: for every `float` option the
+    decimal text of every integer and the integer itself are accepted as the same float, and every finite decimal
+    `a.f` (`f` a non-empty digit string) is accepted as the rational `(a·10^|f| + f)/10^|f|` (the harness compares
+    with the nearest double).  **Strings**: for every `str` option every text stands for itself (only the empty
+    text of `id_database_dir` means the default state directory).  **Lists**: for `supported_formats` the
+    comma-joined text of any non-empty list of words (non-empty, no comma, no space) is accepted as that list,
+    like the native list.  Still missing from the FULL STATEMENT: exponent/sign/whitespace forms of floats beyond
+    these, and `background` (whose `str` alternative keeps non-decimal texts as strings). -/
+theorem same_text_every_layer_partial_more (sd : String) :
+    (∀ o ∈ Tup.Gen.options, o.ty = [.base .float] → ∀ i : Int,
+        normalizeOpt sd o (.str (toString i)) = .ok (.float ⟨i, 1⟩) ∧
+        normalizeOpt sd o (.int i) = .ok (.float ⟨i, 1⟩)) ∧
+    (∀ o ∈ Tup.Gen.options, o.ty = [.base .float] → ∀ (a : Nat) (f : List Char), (∀ c ∈ f, c.isDigit = true) → f ≠ [] →
+        normalizeOpt sd o (.str (String.ofList (Nat.toDigits 10 a ++ '.' :: f))) =
+          .ok (.float ⟨((a * 10 ^ f.length + Nat.ofDigitChars 10 f 0 : Nat) : Int), 10 ^ f.length⟩)) ∧
+    (∀ o ∈ Tup.Gen.options, o.ty = [.base .str] → ∀ s : String, ¬ (o.name = "id_database_dir" ∧ s = "") →
+        normalizeOpt sd o (.str s) = .ok (.str s)) ∧
+    (∀ o ∈ Tup.Gen.options, o.name = "supported_formats" → ∀ (w : String) (ws : List String),
+        isWord w = true → (∀ v ∈ ws, isWord v = true) → String.intercalate "," (w :: ws) ≠ "auto" →
+        normalizeOpt sd o (.str (String.intercalate "," (w :: ws))) = .ok (.list ((w :: ws).map Scalar.str)) ∧
+        normalizeOpt sd o (.list ((w :: ws).map Scalar.str)) = .ok (.list ((w :: ws).map Scalar.str))) := by
+  have hfl : ∀ o ∈ Tup.Gen.options, o.ty = [.base .float] →
+      o.name ≠ "cell_size" ∧ o.name ≠ "default_cell_size" ∧ o.name ≠ "id_database_dir" ∧
+      o.name ≠ "upload_method" ∧ o.name ≠ "supported_formats" ∧ o.name ≠ "max_cols" ∧ o.name ≠ "max_rows" := by decide
+  have hst : ∀ o ∈ Tup.Gen.options, o.ty = [.base .str] →
+      o.name ≠ "cell_size" ∧ o.name ≠ "default_cell_size" ∧
+      o.name ≠ "upload_method" ∧ o.name ≠ "supported_formats" ∧ o.name ≠ "max_cols" ∧ o.name ≠ "max_rows" := by decide
+  have hsf : ∀ o ∈ Tup.Gen.options, o.name = "supported_formats" → o.ty = [.list .str, .base (.lit "auto")] := by decide
+  refine ⟨?_, ?_, ?_, ?_⟩
+  · intro o ho hty i
+    obtain ⟨h1, h2, h3, h4, h5, h6, h7⟩ := hfl o ho hty
+    have hp := pyFloat_toString_int i
+    have hne : toString i ≠ "auto" := by
+      intro e; rw [e] at hp
+      have hnone : pyFloat "auto" = none := by decide
+      rw [hnone] at hp; cases hp
+    have hp' : pyFloat i.repr = some ⟨i, 1⟩ := hp
+    have hns : normalizeString sd o (toString i) = some (.float ⟨i, 1⟩) := by
+      simp [normalizeString, convertScalar, scalarTypes, hty, h1, h2, h3, h4, h5, hp']
+    constructor
+    · simp only [normalizeOpt, preString, ne_eq, hne, not_false_eq_true, ↓reduceIte, hns]
+      simp [promote, checkOpt, verifyType, valIsAlt, valIsBase, scalarIs, constraintsOk, hty]
+    · simp [normalizeOpt, preString, promote, hty, checkOpt, verifyType, valIsAlt, valIsBase, scalarIs, constraintsOk]
+  · intro o ho hty a f hf hne
+    obtain ⟨h1, h2, h3, h4, h5, h6, h7⟩ := hfl o ho hty
+    have hp := pyFloat_decimal a f hf hne
+    have hna : String.ofList (Nat.toDigits 10 a ++ '.' :: f) ≠ "auto" := by
+      intro e; rw [e] at hp
+      have hnone : pyFloat "auto" = none := by decide
+      rw [hnone] at hp; cases hp
+    have hns : normalizeString sd o (String.ofList (Nat.toDigits 10 a ++ '.' :: f)) = some (.float ⟨((a * 10 ^ f.length + Nat.ofDigitChars 10 f 0 : Nat) : Int), 10 ^ f.length⟩) := by
+      simp only [normalizeString, hty, h1, h2, h3, h4, h5, convertScalar, scalarTypes, hp]
+      simp
+    simp only [normalizeOpt, preString, ne_eq, hna, not_false_eq_true, ↓reduceIte, hns]
+    simp [promote, checkOpt, verifyType, valIsAlt, valIsBase, scalarIs, constraintsOk, hty]
+  · intro o ho hty s hs
+    obtain ⟨h1, h2, h4, h5, h6, h7⟩ := hst o ho hty
+    by_cases ha : s = "auto"
+    · subst ha
+      simp [normalizeOpt, preString, promote, hty, checkOpt, verifyType, valIsAlt, valIsBase, scalarIs, constraintsOk]
+    · have hns : normalizeString sd o s = some (.str s) := by
+        simp [normalizeString, convertScalar, scalarTypes, hty, h1, h2, h4, h5, hs]
+      simp only [normalizeOpt, preString, ne_eq, ha, not_false_eq_true, ↓reduceIte, hns]
+      simp [promote, checkOpt, verifyType, valIsAlt, valIsBase, scalarIs, constraintsOk, hty]
+  · intro o ho hn w ws hw hws hne
+    have hty := hsf o ho hn
+    have hsp := splitFormats_join w ws hw hws
+    constructor
+    · have hns : normalizeString sd o (String.intercalate "," (w :: ws)) = some (.list ((w :: ws).map Scalar.str)) := by
+        simp [normalizeString, hty, hn, hsp]
+      simp only [normalizeOpt, preString, ne_eq, hne, not_false_eq_true, ↓reduceIte, hns]
+      simp [promote, checkOpt, verifyType, valIsAlt, valIsBase, scalarIs, constraintsOk, hty]
+    · simp [normalizeOpt, preString, promote, hty, checkOpt, verifyType, valIsAlt, valIsBase, scalarIs, constraintsOk]
+
+example : normalize "/s" "scale" (.str "-3") = .ok (.float ⟨-3, 1⟩) ∧
+    normalize "/s" "global_scale" (.str "12.50") = .ok (.float ⟨1250, 100⟩) ∧
+    normalize "/s" "placeholder_char" (.str "auto") = .ok (.str "auto") ∧
+    normalize "/s" "supported_formats" (.str "png,jpeg") = .ok (.list [.str "png", .str "jpeg"]) ∧
+    isWord "png" = true := by
+  refine ⟨by rfl, by rfl, by rfl, by rfl, by rfl⟩
 
 /-! ### TOML round trip on the typed-value channel -/
 
